@@ -84,7 +84,7 @@ def check(run) -> None:
                         "device part: arguments that the transpiler requires to be literals (patterns) stay literals"]
     counts: dict = {}
     st = Strata(run, "C03")
-    snips = langgen.fold_snippets() + langgen.list_routing_snippets()
+    snips = langgen.fold_snippets() + langgen.list_routing_snippets() + langgen.scope_fold_snippets()
     byid, singles = {}, []
     for s in snips:
         p = langgen.single(s)
